@@ -25,3 +25,7 @@ package gqlerrors
 //@ func NewFormattedError
 //@   trusted
 //@   assigns nothing
+
+//@ func FormatErrors
+//@   trusted
+//@   assigns nothing
